@@ -136,7 +136,7 @@ func runPhase(t *testing.T, sc *Scenario, tasks [][]Call, faults, trivial bool, 
 		start := time.Now()
 		var wg sync.WaitGroup
 		tr := &SimTransport{MinChunk: minC, MaxChunk: maxC, WG: &wg}
-		var client any
+		var client *typedClients
 		var impls map[string][]reflect.Type
 		if sc.Typed {
 			tp := typedPkgs[sc.Pkg]
@@ -145,12 +145,12 @@ func runPhase(t *testing.T, sc *Scenario, tasks [][]Call, faults, trivial bool, 
 				return
 			}
 			impls = tp.Impls
-			h, cl, err := tp.New(typedHandler(tp.Impls), typedNewError, typedFill, tr, typedMiddleware, secondMiddleware)
+			h, cl, whc, err := tp.New(typedHandler(tp.Impls), typedNewError, typedFill, tr, typedMiddleware, secondMiddleware)
 			if err != nil {
 				res.trouble = err.Error()
 				return
 			}
-			tr.Handler, client = h, cl
+			tr.Handler, client = h, &typedClients{api: cl, webhook: whc, webhooks: tp.Webhooks}
 		} else {
 			newServer := servers[sc.Pkg]
 			if newServer == nil {
